@@ -101,3 +101,90 @@ package badgerdb
 //@   loop 102 invariant found: !found ==> rangeindex == -1
 //@   ensures ok: result == nil ==> (forall k:Str :: kvhas(k) <==> (old(kvhas(k)) && !hasprefix(k, prefix))) && same(kvvals(), old(kvvals()))
 //@   ensures fail: result != nil ==> (forall k:Str :: kvhas(k) ==> old(kvhas(k))) && (forall k:Str :: old(kvhas(k)) && !hasprefix(k, prefix) ==> kvhas(k)) && same(kvvals(), old(kvvals()))
+
+// ---- C10/C06: point reads and writes of the badger driver ----------------------------------
+// Each is proved against the interface contract of spec/kv.gvc on top of the assumed
+// contracts of badger's View/Update/Txn.Get/Txn.Set/Txn.Delete/Item.Value (spec/kvlib.gvc):
+// Get and HasKey answer from the store and change nothing; Set and Delete are one top-level
+// write that stores / removes exactly the given key, or fail and change nothing; the
+// transaction and bulk-write handles do the same inside an enclosing Update / BulkWrite
+// (no top-level write of their own).
+//@ func (*BadgerKV).Get
+//@   vars badgerkv id out err tx dataValue err d
+//@   property C10 C06
+//@   option prelude=kv,kvlib
+//@   nopanic
+//@   requires nonnil: badgerkv != nil && badgerkv.db != nil
+//@   ensures found: result.1 == nil <==> kvhas(id)
+//@   ensures value: result.1 == nil ==> result.0 == kvval(id)
+//@   ensures frame: same(kvdom(), old(kvdom())) && same(kvvals(), old(kvvals())) && kvwrites() == old(kvwrites())
+//@ func (*BadgerKV).HasKey
+//@   vars badgerkv id out tx err
+//@   property C10 C06
+//@   option prelude=kv,kvlib
+//@   nopanic
+//@   requires nonnil: badgerkv != nil && badgerkv.db != nil
+//@   ensures def: result <==> kvhas(id)
+//@   ensures frame: same(kvdom(), old(kvdom())) && same(kvvals(), old(kvvals())) && kvwrites() == old(kvwrites())
+//@ func (*BadgerKV).Set
+//@   vars badgerkv id val err tx
+//@   property C10 C06
+//@   option prelude=kv,kvlib
+//@   nopanic
+//@   requires nonnil: badgerkv != nil && badgerkv.db != nil
+//@   ensures nw: kvwrites() == old(kvwrites()) + 1
+//@   ensures ok: result == nil ==> same(kvdom(), store(old(kvdom()), id, true)) && same(kvvals(), store(old(kvvals()), id, val))
+//@   ensures fail: result != nil ==> same(kvdom(), old(kvdom())) && same(kvvals(), old(kvvals()))
+//@ func (*BadgerKV).Delete
+//@   vars badgerkv id err tx
+//@   property C10 C06
+//@   option prelude=kv,kvlib
+//@   nopanic
+//@   requires nonnil: badgerkv != nil && badgerkv.db != nil
+//@   ensures nw: kvwrites() == old(kvwrites()) + 1
+//@   ensures ok: result == nil ==> same(kvdom(), store(old(kvdom()), id, false)) && same(kvvals(), old(kvvals()))
+//@   ensures fail: result != nil ==> same(kvdom(), old(kvdom())) && same(kvvals(), old(kvvals()))
+//@ func (badgerTransaction).Get
+//@   vars badgerTrans id dataValue err out d
+//@   property C10 C06
+//@   option prelude=kv,kvlib
+//@   nopanic
+//@   requires nonnil: badgerTrans.tx != nil
+//@   ensures found: result.1 == nil <==> kvhas(id)
+//@   ensures value: result.1 == nil ==> result.0 == kvval(id)
+//@   ensures frame: same(kvdom(), old(kvdom())) && same(kvvals(), old(kvvals())) && kvwrites() == old(kvwrites())
+//@ func (badgerTransaction).HasKey
+//@   vars badgerTrans id err
+//@   property C10 C06
+//@   option prelude=kv,kvlib
+//@   nopanic
+//@   requires nonnil: badgerTrans.tx != nil
+//@   ensures def: result <==> kvhas(id)
+//@   ensures frame: same(kvdom(), old(kvdom())) && same(kvvals(), old(kvvals())) && kvwrites() == old(kvwrites())
+//@ func (badgerTransaction).Set
+//@   vars badgerTrans key val
+//@   property C10 C06
+//@   option prelude=kv,kvlib
+//@   nopanic
+//@   requires nonnil: badgerTrans.tx != nil
+//@   ensures nw: kvwrites() == old(kvwrites())
+//@   ensures ok: result == nil ==> same(kvdom(), store(old(kvdom()), key, true)) && same(kvvals(), store(old(kvvals()), key, val))
+//@   ensures fail: result != nil ==> same(kvdom(), old(kvdom())) && same(kvvals(), old(kvvals()))
+//@ func (badgerTransaction).Delete
+//@   vars badgerTrans id
+//@   property C10 C06
+//@   option prelude=kv,kvlib
+//@   nopanic
+//@   requires nonnil: badgerTrans.tx != nil
+//@   ensures nw: kvwrites() == old(kvwrites())
+//@   ensures ok: result == nil ==> same(kvdom(), store(old(kvdom()), id, false)) && same(kvvals(), old(kvvals()))
+//@   ensures fail: result != nil ==> same(kvdom(), old(kvdom())) && same(kvvals(), old(kvvals()))
+//@ func (badgerBulkWrite).Set
+//@   vars badgerBW key val
+//@   property C10 C06
+//@   option prelude=kv,kvlib
+//@   nopanic
+//@   requires nonnil: badgerBW.bt != nil
+//@   ensures nw: kvwrites() == old(kvwrites())
+//@   ensures ok: result == nil ==> same(kvdom(), store(old(kvdom()), key, true)) && same(kvvals(), store(old(kvvals()), key, val))
+//@   ensures fail: result != nil ==> same(kvdom(), old(kvdom())) && same(kvvals(), old(kvvals()))
